@@ -497,3 +497,72 @@ func exhaustive(w *gen.Writer, seed uint64) {
 		}
 	}
 }
+
+// genHistory derives a history from a table: 2-5 requests on one app; half of the histories register a
+// new route at run time (unique literal path under a stem of the table, so that it shares the 3-byte
+// bucket with earlier requests), serve requests before RebuildTree() and after it.
+func genHistory(r *gen.Rand, t table) ([]reg, []hop) {
+	regs := make([]reg, len(t.regs))
+	for i, g := range t.regs {
+		g2 := g
+		g2.hs = append([]handler(nil), g.hs...)
+		for k := range g2.hs {
+			if g2.hs[k].script[0] == 'p' {
+				g2.hs[k].script = "n"
+			}
+		}
+		regs[i] = g2
+	}
+	tt := table{cfg: t.cfg, regs: regs}
+	q := func() hop {
+		m, p := genReq(r, tt)
+		return hop{kind: 'Q', method: m, path: p}
+	}
+	var ops []hop
+	if r.Bool() {
+		for n := 2 + r.Intn(4); n > 0; n-- {
+			ops = append(ops, q())
+		}
+		return regs, ops
+	}
+	listed := t.cfg.methodList()
+	hid := 900
+	nreq := 0
+	for round := 1 + r.Intn(2); round > 0; round-- {
+		stem := gen.Pick(r, []string{"/api", "/abc", "/ab", "/a", "/old", "/new"})
+		m := listed[0]
+		if r.Chance(1, 3) {
+			m = gen.Pick(r, listed)
+		}
+		np := fmt.Sprintf("%s/r%d", stem, round)
+		g := reg{kind: 'A', methods: []string{m}, path: np, hs: []handler{{hid, gen.Pick(r, []string{"s", "s", "n"})}}}
+		if r.Chance(1, 5) {
+			g = reg{kind: 'U', path: np, hs: []handler{{hid, "n"}}}
+		}
+		hid++
+		if r.Chance(2, 3) {
+			// warm the pooled context with the same method and 3-byte prefix
+			ops = append(ops, hop{kind: 'Q', method: m, path: gen.Pick(r, []string{stem + "/q", np, stem + "/r", stem})})
+			nreq++
+		} else if r.Chance(1, 2) {
+			ops = append(ops, q())
+			nreq++
+		}
+		ops = append(ops, hop{kind: 'R', g: g})
+		if r.Chance(2, 3) {
+			// a request between the registration and the rebuild: the new route is not served yet
+			ops = append(ops, hop{kind: 'Q', method: m, path: gen.Pick(r, []string{np, stem + "/q", np})})
+			nreq++
+		}
+		if r.Chance(4, 5) {
+			ops = append(ops, hop{kind: 'B'})
+		}
+		ops = append(ops, hop{kind: 'Q', method: m, path: np})
+		nreq++
+		if r.Chance(1, 3) {
+			ops = append(ops, q())
+			nreq++
+		}
+	}
+	return regs, ops
+}
